@@ -551,3 +551,6 @@ V("S2-T-not-stored", ["C10"], "ivector", "    machine.T = X.transpose((0, 2, 1))
 V("S2-sigma-not-stored", ["C10"], "ivector", "        machine.sigma = (stats.snormij - fnorm_sigma_wij_tt) / stats.nij[:, None]\n", "        pass\n", "i-vector M-step never stores the new sigma")
 V("S2-unwrap-inverted", ["C08", "C11"], "linear_scoring", "ubm.trainer == 'map'", "ubm.trainer != 'map'", "MAP -> prior replacement executed for ML machines only")
 V("S2-unwrap-else-form", ["C08"], "linear_scoring", "    if ubm.trainer == 'map':\n        ubm = ubm.ubm\n", "    if ubm.trainer != 'map':\n        pass\n    else:\n        ubm = ubm.ubm\n", "same replacement written with the negated test", kind="benign")
+V("S2-snorm-coef", ["C10"], "ivector", "Sij - 2 * Fij", "Sij - 3 * Fij", "cross term of the centred second-order statistics with coefficient 3")
+V("S2-blend-coef", ["C05"], "gmm", "np.multiply(1 - alpha[:, None], machine.ubm.means)", "np.multiply(2 - alpha[:, None], machine.ubm.means)", "prior mean weighted by (2 - alpha)")
+V("S2-mlvar-coef", ["C03"], "gmm", "(statistics.sum_pxx - 2 * machine.means", "(statistics.sum_pxx - 3 * machine.means", "cross term of the ML variance with coefficient 3")
